@@ -69,7 +69,7 @@ func genC01(w *World, res *CheckResult) {
 	res.Obls = append(res.Obls, obls...)
 	res.Assumptions = append(res.Assumptions, notes...)
 	g := genRun(w)
-	res.Obls = append(res.Obls, selectObls(g.obls, `/post\[(value|below|stack|ip)\]$`, `inv-(init|pres)\[(stack-mem|filled|stack|pops|count|i|args-valid)\]`, `/lib-pre:reflect\.Value\.Call`, `^vm\.VM\.Run/pre-sat$`, `/cover$`)...)
+	res.Obls = append(res.Obls, selectObls(g.obls, `/post\[(value|below|stack|ip)\]$`, `inv-(init|pres)\[(stack-mem|filled|stack|pops|count|i|args-valid)\]`, `/lib-pre:reflect\.Value\.Call`, `/no-explicit-panic$`, `^vm\.VM\.Run/pre-sat$`, `/cover$`)...)
 	res.Assumptions = append(res.Assumptions, g.notes...)
 	res.Functions = append(res.Functions, g.funcs...)
 	// literals: number classification of the parser (cells of C12)
